@@ -1271,6 +1271,215 @@ theorem accepted_roundtrip (regs : Regs) (tb : TableOK regs) (env : LexEnv regs)
   obtain ⟨c, hc, hfl, rfl⟩ := accepted_expression_reading regs tb maxDepth (by decide) toks a h hns
   exact (source_roundtrip regs tb env rt hnot c hc (hfit c hc rfl hfl) hl).2
 
+/-! ## the leaves of every parser result are tokenizer-shaped -/
+
+/-- what the tokenizer guarantees about a token that becomes a leaf -/
+def TokLeafOK (regs : Regs) : Tok → Prop
+  | .num d => d.neg = false ∧ d.WF
+  | .str s => ¬ ('"' ∈ s ∧ '\'' ∈ s)
+  | .ref n => NameShape regs n
+  | .func n => NameShape regs n
+  | _ => True
+
+theorem ofText_leaf {cs : Text} {d : Dec} (h : Dec.ofText cs = .ok d) : d.neg = false ∧ d.WF := by
+  unfold Dec.ofText at h
+  simp only at h
+  split at h
+  · cases h
+  · split at h
+    · cases h
+    · split at h
+      · cases h
+      · split at h
+        · rename_i hc
+          simp only [Res.ok.injEq] at h
+          subst h
+          exact ⟨rfl, hc.2, hc.1⟩
+        · cases h
+
+theorem lexOne_leaf (regs : Regs) (c : Char) (cs : Text) (s : Nat) (t : SpTok) (rest : Text) (hws : isWs c = false)
+    (h : lexOne regs c cs s = .ok (t, rest)) (hn : NameOK regs t.tok) : TokLeafOK regs t.tok := by
+  unfold lexOne at h
+  split at h
+  · simp only [Res.ok.injEq, Prod.mk.injEq] at h; rw [← h.1]; trivial
+  · rename_i hsp
+    split at h
+    · simp only [Res.ok.injEq, Prod.mk.injEq] at h; rw [← h.1]; trivial
+    · rename_i hdl
+      split at h
+      · -- number
+        unfold lexNumber at h
+        split at h <;> try (cases h; done)
+        rename_i d hd
+        simp only [Res.ok.injEq, Prod.mk.injEq] at h
+        rw [← h.1]
+        exact ofText_leaf hd
+      · rename_i hdig
+        split at h
+        · -- string
+          rename_i hq
+          unfold lexString at h
+          split at h
+          · cases h
+          · rename_i payload r hs
+            simp only [Res.ok.injEq, Prod.mk.injEq] at h
+            rw [← h.1]
+            obtain ⟨_, h2⟩ := scanString_spec c cs payload r hs
+            rcases quote_cases hq with rfl | rfl
+            · exact fun hb => h2 hb.1
+            · exact fun hb => h2 hb.2
+        · rename_i hq
+          split at h
+          · simp only [Res.ok.injEq, Prod.mk.injEq] at h; rw [← h.1]; trivial
+          · rename_i hsemi
+            split at h
+            · simp only [Res.ok.injEq, Prod.mk.injEq] at h; rw [← h.1]; trivial
+            · rename_i hcomma
+              simp only [Res.ok.injEq] at h
+              unfold lexOther at h
+              split at h
+              · simp only [Prod.mk.injEq] at h; rw [← h.1]; trivial
+              · simp only [Prod.mk.injEq] at h
+                have htok : t.tok = classifyAtom (c :: (span isParamCh cs).1) (span isParamCh cs).2 := by rw [← h.1]
+                have hos : isOtherStart c = true := by
+                  simp only [isOtherStart, Bool.and_eq_true, Bool.not_eq_true', Option.isNone_iff_eq_none, bne_iff_ne, ne_eq]
+                  exact ⟨⟨⟨⟨⟨⟨by simpa using hsp, hdl⟩, by simpa using hdig⟩, by simpa using hq⟩, by simpa using hsemi⟩, by simpa using hcomma⟩, hws⟩
+                have hkt := span_all isParamCh cs
+                rw [htok] at hn ⊢
+                unfold classifyAtom at hn ⊢
+                split
+                · trivial
+                · rename_i hb1
+                  split
+                  · trivial
+                  · rename_i hb2
+                    have hbw : isBoolWord (c :: (span isParamCh cs).1) = false := by
+                      simp only [isBoolWord, Bool.or_eq_false_iff]
+                      simp only [Bool.or_eq_true, not_or, Bool.not_eq_true] at hb1 hb2
+                      exact ⟨⟨⟨hb1.1, hb1.2⟩, hb2.1⟩, hb2.2⟩
+                    simp only [hb1, hb2, Bool.false_eq_true, if_false] at hn
+                    split
+                  -- func / ref
+                    · rename_i hop
+                      simp only [hop, if_true, NameOK] at hn
+                      exact ⟨c, _, rfl, hos, hkt, hn, hbw⟩
+                    · rename_i hop
+                      simp only [hop, Bool.false_eq_true, if_false, NameOK] at hn
+                      exact ⟨c, _, rfl, hos, hkt, hn, hbw⟩
+
+theorem lexAll_leaf (regs : Regs) : ∀ (fuel : Nat) (cs : Text) (pos : Nat) (toks : List SpTok), lexAll regs fuel cs pos = .ok toks →
+    (∀ t ∈ toks, NameOK regs t.tok) → ∀ t ∈ toks, TokLeafOK regs t.tok
+  | 0, cs, pos, toks, h, _ => by rw [lexAll_zero] at h; cases h
+  | fuel + 1, cs, pos, toks, h, hn => by
+    rw [lexAll_succ] at h
+    cases hrest : (span isWs cs).2 with
+    | nil => rw [hrest] at h; simp only [Res.ok.injEq] at h; subst h; intro t ht; cases ht
+    | cons c cs' =>
+      rw [hrest] at h
+      simp only at h
+      have hcws : isWs c = false := span_stop isWs cs c cs' hrest
+      cases hl : lexOne regs c cs' (pos + utf8Len (span isWs cs).1) with
+      | ok p =>
+        obtain ⟨t0, rest⟩ := p
+        rw [hl] at h
+        simp only [Res.bind_ok] at h
+        cases hr : lexAll regs fuel rest t0.stop with
+        | ok ts =>
+          rw [hr] at h; simp only [Res.bind_ok, Res.ok.injEq] at h; subst h
+          intro t ht
+          simp only [List.mem_cons] at ht
+          rcases ht with rfl | ht
+          · exact lexOne_leaf regs c cs' _ t rest hcws hl (hn t (by simp))
+          · exact lexAll_leaf regs fuel rest t0.stop ts hr (fun x hx => hn x (by simp [hx])) t ht
+        | err e => rw [hr] at h; simp at h
+        | panic => rw [hr] at h; simp at h
+        | deadlock => rw [hr] at h; simp at h
+        | hang => rw [hr] at h; simp at h
+        | unmodelled => rw [hr] at h; simp at h
+      | err e => rw [hl] at h; simp at h
+      | panic => rw [hl] at h; simp at h
+      | deadlock => rw [hl] at h; simp at h
+      | hang => rw [hl] at h; simp at h
+      | unmodelled => rw [hl] at h; simp at h
+
+mutual
+theorem gtok_leaf {regs : Regs} : ∀ {ts : List Tok} {e : AST}, GTok regs ts e → (∀ t ∈ ts, TokLeafOK regs t) → LeafOK regs e
+  | _, _, .num d, h => h (.num d) (by simp)
+  | _, _, .bool _, _ => trivial
+  | _, _, .str s, h => h (.str s) (by simp)
+  | _, _, .ref n, h => h (.ref n) (by simp)
+  | _, _, .call0 n, h => ⟨h (.func n) (by simp), trivial⟩
+  | _, _, .call (n := n) hg, h => ⟨h (.func n) (by simp), gargs_leaf hg (fun t ht => h t (by simp [ht]))⟩
+  | _, _, .unary _ hg, h => by simp only [LeafOK]; exact gprim_leaf hg (fun t ht => h t (by simp [ht]))
+  | _, _, .paren hg, h => gexpr_leaf hg (fun t ht => h t (by simp [ht]))
+  | _, _, .list hg, h => gitems_leaf hg (fun t ht => h t (by simp [ht]))
+  | _, _, .map hg, h => gentries_leaf hg (fun t ht => h t (by simp [ht]))
+theorem gprim_leaf {regs : Regs} : ∀ {ts : List Tok} {e : AST}, GPrim regs ts e → (∀ t ∈ ts, TokLeafOK regs t) → LeafOK regs e
+  | _, _, .tok hg, h => gtok_leaf hg h
+  | _, _, .postfix hg _, h => by simp only [LeafOK]; exact gprim_leaf hg (fun t ht => h t (by simp [ht]))
+theorem gbin_leaf {regs : Regs} : ∀ {ts : List Tok} {e : AST}, GBin regs ts e → (∀ t ∈ ts, TokLeafOK regs t) → LeafOK regs e
+  | _, _, .prim hg, h => gprim_leaf hg h
+  | _, _, .bin hl _ hr, h => ⟨gbin_leaf hl (fun t ht => h t (by simp [ht])), gbin_leaf hr (fun t ht => h t (by simp [ht]))⟩
+  | _, _, .notBin hl _ hr, h => by
+    simp only [LeafOK]
+    exact ⟨gbin_leaf hl (fun t ht => h t (by simp [ht])), gbin_leaf hr (fun t ht => h t (by simp [ht]))⟩
+theorem gexpr_leaf {regs : Regs} : ∀ {ts : List Tok} {e : AST}, GExpr regs ts e → (∀ t ∈ ts, TokLeafOK regs t) → LeafOK regs e
+  | _, _, .bin hg, h => gbin_leaf hg h
+  | _, _, .tern hc ha hb, h =>
+    ⟨gbin_leaf hc (fun t ht => h t (by simp [ht])), gexpr_leaf ha (fun t ht => h t (by simp [ht])), gexpr_leaf hb (fun t ht => h t (by simp [ht]))⟩
+theorem gargs_leaf {regs : Regs} : ∀ {ts : List Tok} {es : List AST}, GArgs regs ts es → (∀ t ∈ ts, TokLeafOK regs t) → LeafOKList regs es
+  | _, _, .one hg, h => ⟨gexpr_leaf hg h, trivial⟩
+  | _, _, .cons hg hr, h => ⟨gexpr_leaf hg (fun t ht => h t (by simp [ht])), gargs_leaf hr (fun t ht => h t (by simp [ht]))⟩
+theorem gitems_leaf {regs : Regs} : ∀ {ts : List Tok} {es : List AST}, GItems regs ts es → (∀ t ∈ ts, TokLeafOK regs t) → LeafOKList regs es
+  | _, _, .nil, _ => trivial
+  | _, _, .one hg, h => ⟨gexpr_leaf hg h, trivial⟩
+  | _, _, .cons hg hr, h => ⟨gexpr_leaf hg (fun t ht => h t (by simp [ht])), gitems_leaf hr (fun t ht => h t (by simp [ht]))⟩
+theorem gentries_leaf {regs : Regs} : ∀ {ts : List Tok} {es : List (AST × AST)}, GEntries regs ts es → (∀ t ∈ ts, TokLeafOK regs t) → LeafOKMap regs es
+  | _, _, .nil, _ => trivial
+  | _, _, .one hk hv, h => ⟨gexpr_leaf hk (fun t ht => h t (by simp [ht])), gexpr_leaf hv (fun t ht => h t (by simp [ht])), trivial⟩
+  | _, _, .cons hk hv hr, h =>
+    ⟨gexpr_leaf hk (fun t ht => h t (by simp [ht])), gexpr_leaf hv (fun t ht => h t (by simp [ht])), gentries_leaf hr (fun t ht => h t (by simp [ht]))⟩
+end
+
+/-- **Every expression `parse_expression` returns has tokenizer-shaped leaves**, provided its names
+are not operator words. -/
+theorem parsed_leaves (regs : Regs) (hp : RegsPos regs) (s : Text) (sts : List SpTok) (a : AST)
+    (ht : tokenize regs s = .ok sts) (hn : ∀ t ∈ sts, NameOK regs t.tok)
+    (h : parseTokens regs maxDepth (sts.map (·.tok)) = .ok a) (hns : ∀ es, a ≠ .stmt es) : LeafOK regs a := by
+  have hleaf : ∀ t ∈ sts.map (·.tok), TokLeafOK regs t := by
+    intro t ht'
+    simp only [List.mem_map] at ht'
+    obtain ⟨st, hst, rfl⟩ := ht'
+    exact lexAll_leaf regs _ s 0 sts ht hn st hst
+  generalize sts.map (·.tok) = toks at h hleaf
+  obtain ⟨es, hg, rfl⟩ := EE.Props.C05.parse_sound regs hp maxDepth (by decide) toks a h
+  match es, hg with
+  | [], _ => exact absurd rfl (hns [])
+  | _ :: _ :: _, _ => exact absurd rfl (hns _)
+  | [e], .stmt he hr => cases hr; exact gexpr_leaf he (fun t ht' => hleaf t (by simp [ht']))
+  | [e], .stmtSemi he hr => cases hr; exact gexpr_leaf he (fun t ht' => hleaf t (by simp [ht']))
+
+/-- **From source text to source text**: any text whose tokens are those of a canonically written
+expression within the nesting limit, with names that are not operator words: `parse_expression`
+returns a tree `t`, and `parse_expression(t.expr())` returns `t` again. Nothing is assumed about
+the rendering or about the leaves — both follow from the source. -/
+theorem text_roundtrip (regs : Regs) (tb : TableOK regs) (env : LexEnv regs) (rt : RegsText regs)
+    (hnot : regs.isPrefix notName = true) (s : Text) (sts : List SpTok) (c : CST)
+    (ht : tokenize regs s = .ok sts) (hn : ∀ t ∈ sts, NameOK regs t.tok) (hfl : sts.map (·.tok) = c.flatten)
+    (hc : Canon regs c) (hf : Fits maxDepth c) :
+    parseProgram regs s = .ok c.strip ∧ parseProgram regs (expr regs c.strip) = .ok c.strip := by
+  have hparse : parseTokens regs maxDepth (sts.map (·.tok)) = .ok c.strip := by
+    rw [hfl]; exact groups_as_written regs tb maxDepth c hc hf
+  have hns : ∀ es, c.strip ≠ .stmt es := by
+    intro es e
+    have := canon_producible hnot c hc
+    rw [e] at this
+    exact this
+  have hl := parsed_leaves regs tb.pos s sts c.strip ht hn hparse hns
+  refine ⟨?_, (source_roundtrip regs tb env rt hnot c hc hf hl).2⟩
+  unfold parseProgram
+  rw [ht]; exact hparse
+
 /-! ## non-vacuity: a tree with every kind of leaf, through the theorem -/
 
 def exampleTree : AST :=
